@@ -332,6 +332,7 @@ package meta
 //@   holds fsm.mu
 //@   at after proto.GetExtension#1: assume typeis(callresult0, "*metapb.PruneShardGroupsCommand") && ival(callresult0) != 0
 //@   ensures rejected_changes_nothing: result != nil ==> fsm.data == old(fsm.data)
+//@   call Data.PruneShardGroups#1 assume_callee_requires
 //@   call Data.PruneShardGroups#1 requires runs_on_private_copy: fresh(other)
 
 //@ func (*storeFSM).applyCopyShardOwnerCommand
@@ -539,10 +540,6 @@ package meta
 //@   assumed
 //@   modifies *except storeFSM.all store.all
 
-//@ func (*Data).PruneShardGroups
-//@   assumed
-//@   modifies *except storeFSM.all store.all
-
 //@ func (*Data).RemoveShardOwner
 //@   assumed
 //@   modifies *except storeFSM.all store.all
@@ -633,3 +630,41 @@ package meta
 //@   ensures effective_end_never_grows: all(r, eff_end(cast(ShardGroupInfo, r)) <= old(eff_end(cast(ShardGroupInfo, r))))
 //@   ensures groups_stay_ordered: all(r, group_ordered(cast(ShardGroupInfo, r)))
 //@   modifies ShardGroupInfo.TruncatedAt
+
+// ---- C16: a write is authorised only for a known OSS user holding WRITE (or ALL, or admin) on that database ----
+//@ func (*Client).User
+//@   assumed
+//@   modifies nothing
+
+//@ func (WriteAuthorizer).AuthorizeWrite
+//@   props C16
+//@   requires a.Client != nil
+//@   ghost granted bool = false
+//@   at after UserInfo.AuthorizeDatabase#1: ghost granted = callresult
+//@   call UserInfo.AuthorizeDatabase#1 requires asks_for_write_on_the_target_database: callarg1 == influxql.WritePrivilege && callarg2 == database
+//@   ensures authorised_only_if_granted: result == nil ==> granted
+
+// ---- C08: within the group, the shard is the series hash modulo the number of shards ----
+// (the hash of a point is the abstract function hashid_of, see /verif/trusted/stdlib.spec)
+//@ func (*ShardGroupInfo).ShardFor
+//@   props C08
+//@   requires has_shards: len(sgi.Shards) >= 1 && p != nil
+//@   ensures hash_modulo_shard_count: result.ID == sgi.Shards[ite(len(sgi.Shards) == 1, 0, hashid_of(p) % uint64(len(sgi.Shards)))].ID
+//@   modifies nothing
+
+// ---- C17: pruning forgets a deleted shard group only after the grace period ----
+// A deleted group has to stay in the metadata for two weeks: every node that holds one of its shards learns from
+// it (DeletedShardGroups) that the shard must go. Groups that are live, or were deleted less than two weeks
+// before `now` (the time.Now() read by this call), survive a prune: `ms[k] == 1` records that group k, when visited, had to stay, `w[k] == 1` that it was copied to the list that replaces the old one.
+//@ pure must_stay(g, now) = g.DeletedAt.IsZero() || nanos(g.DeletedAt) >= now - 1209600000000000
+//@ func (*Data).PruneShardGroups
+//@   props C17
+//@   nosafety
+//@   ghost now int = 0
+//@   ghost w map
+//@   at after time.Now#1: ghost now = nanos(callresult)
+//@   ghost ms map
+//@   at before Time.IsZero#1: ghost ms[rangeindex+1] = ite(must_stay(sgi, now), 1, 0)
+//@   at before append#1: ghost w[rangeindex+1] = 1
+//@   loop 3 invariant own_storage: cap(remainingShardGroups) == 0 || fresh(remainingShardGroups)
+//@   loop 3 invariant kept_what_must_stay: all(k, 0, rangeindex+1, ms[k] == 1 ==> w[k] == 1)
